@@ -71,7 +71,7 @@ def strategy(tier, sub=None):
 
 
 def budget(tier, sub=None):
-    return {"examples": 24000 if tier == "quick" else 160000, "shards": 16}
+    return {"examples": 24000 if tier == "quick" else 600000, "shards": 16}
 
 
 def run_case(spec, sub=None):
